@@ -4,6 +4,8 @@ Direction 1: TLC enumerates every table of the small scopes x every direct filte
 admissible ordered filter list (MC_Segfilters); each dumped state is replayed into the real
 cnvlib.segfilters / cnvlib.call.do_call.  Direction 2: seeded random tables (1..6 chromosomes x
 1..30 segments, gaps, zero weights, NaN cn1/cn2 or baf, every filter list x calling method).
+In both directions the table reaches the code by one of four construction routes with the same rows but
+a different row index (fresh 0..n-1, boolean-mask filtered out of a larger table, permuted labels, offset).
 Every filter application inside do_call is recorded by wrapping the module attributes
 cnvlib.segfilters.{ci,sem,cn,ampdel} (do_call looks them up late), so the calling step itself
 stays uninterpreted.  All records are judged by TLC against the P-layer of spec/Segfilters.tla.
@@ -57,14 +59,15 @@ def _grid(x, scale):
     return n if abs(v - n) < 1e-7 and abs(n) < 2**31 else None
 
 
-def _build(rows, cols, names, hasbaf):
-    """Encoded rows -> CopyNumArray of the real package."""
+ROUTES = ("fresh", "masked", "permuted", "offset")      # as harness/props/_calling.py (C01/C02)
+
+
+def _frame(rows, cols, names, hasbaf, genes):
     import numpy as np
     import pandas as pd
-    from cnvlib.cnary import CopyNumArray as CNA
     d = {"chromosome": [names[r["c"] - 1] for r in rows],
          "start": [r["s"] for r in rows], "end": [r["e"] for r in rows],
-         "gene": [f"g{k}" for k in range(len(rows))],
+         "gene": list(genes),
          "log2": [(r["lh"] + r["ll"] / T) / G for r in rows],
          "probes": [r["p"] for r in rows],
          "weight": [r["w"] / WS for r in rows]}
@@ -83,7 +86,46 @@ def _build(rows, cols, names, hasbaf):
     df = pd.DataFrame(d)
     df["chromosome"] = df["chromosome"].astype("string")
     df["gene"] = df["gene"].astype("string")
-    return CNA(df, {"sample_id": "s"})
+    return df
+
+
+def _build(rows, cols, names, hasbaf, route="fresh"):
+    """Encoded rows -> CopyNumArray of the real package, by one of several construction routes that give the
+    SAME rows in the same order but a different row index (the way the caller obtained the table):
+      fresh     labels 0..n-1
+      masked    boolean-mask selection out of a larger table with decoy rows in between: gapped labels
+      permuted  rows entered in another order and brought back by position, no reset_index: permuted labels
+      offset    labels start at 1000
+    """
+    import numpy as np
+    from cnvlib.cnary import CopyNumArray as CNA
+    n = len(rows)
+    genes = [f"g{k}" for k in range(n)]
+    meta = {"sample_id": "s"}
+    if route == "masked":
+        big, bg, keep = [], [], []
+        for k, r in enumerate(rows):
+            if k % 2 == 0:                       # a decoy in front of every other row (and the first)
+                big.append(dict(r, lh=-2240, ll=0, p=1, w=WS)), bg.append("decoy"), keep.append(False)
+            big.append(r), bg.append(genes[k]), keep.append(True)
+        big.append(dict(rows[-1], lh=-2240, ll=0, p=1, w=WS)), bg.append("decoy"), keep.append(False)
+        arr = CNA(_frame(big, cols, names, hasbaf, bg), meta)[np.array(keep)]
+    elif route == "permuted" and n > 1:
+        perm = list(range(n))[::-1] if n < 4 else [k for k in range(n) if k % 3 == 1] + \
+            [k for k in range(n) if k % 3 == 2] + [k for k in range(n) if k % 3 == 0]
+        arr = CNA(_frame([rows[k] for k in perm], cols, names, hasbaf, [genes[k] for k in perm]), meta)
+        inv = [0] * n
+        for pos, k in enumerate(perm):
+            inv[k] = pos
+        arr.data = arr.data.iloc[inv]            # intended order again, labels stay permuted
+    else:
+        arr = CNA(_frame(rows, cols, names, hasbaf, genes), meta)
+        if route in ("offset", "permuted"):
+            arr.data.index = arr.data.index + 1000
+    if len(arr) != n or list(arr.data["gene"]) != genes or \
+            [(int(a), int(b)) for a, b in zip(arr.data["start"], arr.data["end"])] != [(r["s"], r["e"]) for r in rows]:
+        raise MachineryError(f"table construction route {route} did not reproduce the rows")
+    return arr
 
 
 def _proj(arr, names):
@@ -158,8 +200,9 @@ def execute(inp):
     from cnvlib import call, segfilters
     names = inp["names"]
     rec = {k: inp[k] for k in ("op", "f", "filters", "method", "a", "cols", "names", "hasbaf")}
+    rec["route"] = inp.get("route", "fresh")
     rec.update(steps=[], out=[], err="")
-    arr = _build(inp["a"], inp["cols"], names, inp["hasbaf"])
+    arr = _build(inp["a"], inp["cols"], names, inp["hasbaf"], rec["route"])
     # what the real table holds, re-encoded (so that input and output pass through the same encoder)
     rec["a"] = [dict(r, mb=o["mb"], bf=o["bf"]) for r, o in zip(_proj(arr, names)[0], inp["a"])]
     if inp["op"] != "call":
@@ -214,6 +257,8 @@ def _scope_constants(sc):
 
 
 def _inputs_from_states(states, sc, names):
+    import random
+    pick = random.Random(20260930)      # construction route per enumerated state: fixed, independent of the seed
     cols = {"cn": True, "al": sc["als"] != ["none"], "ci": True, "sem": True}
     out = []
     for st in states:
@@ -227,7 +272,8 @@ def _inputs_from_states(states, sc, names):
             rows.append(d)
         direct = kind == "direct"
         out.append({"op": fl[0] if direct else "call", "f": fl[0] if direct else "", "filters": [] if direct else list(fl),
-                    "method": "none", "a": rows, "cols": dict(cols), "names": names, "hasbaf": False})
+                    "method": "none", "a": rows, "cols": dict(cols), "names": names, "hasbaf": False,
+                    "route": pick.choice(ROUTES)})
     return out
 
 
@@ -332,7 +378,7 @@ def random_inputs(ctx: Ctx, n):
             hasbaf = rng.random() < 0.5
         rows = _rand_table(rng, cols, hasbaf, big=rng.random() < 0.35)
         out.append({"op": op, "f": f, "filters": list(fl), "method": method, "a": rows, "cols": cols,
-                    "names": rng.choice(NAMINGS), "hasbaf": hasbaf})
+                    "names": rng.choice(NAMINGS), "hasbaf": hasbaf, "route": ROUTES[k % len(ROUTES)]})
     return out
 
 
@@ -390,7 +436,7 @@ def _count_boundaries(ctx, rec):
 
 
 def _key(rec):
-    return [rec["op"], rec["f"], rec["filters"], rec["method"], rec["cols"], rec["hasbaf"], rec["names"][0],
+    return [rec["op"], rec["f"], rec["filters"], rec["method"], rec["cols"], rec["hasbaf"], rec["route"], rec["names"][0],
             [[r[k] for k in sorted(r)] for r in rec["a"]]]
 
 
@@ -399,6 +445,7 @@ def _account(ctx, recs):
         steps = rec["steps"] if rec["op"] == "call" else [rec]
         ctx.count_input(_key(rec), nontrivial=any(len(s["out"]) < len(s["a"]) for s in steps))
         _count_boundaries(ctx, rec)
+        ctx.bump("table_route_" + rec["route"])
 
 
 # ------------------------------------------------------------------ the check
